@@ -290,7 +290,16 @@ def run(ctx, rep):
 
     # ---- R13.7
     fb = ctx.func("rpyc.utils.helpers.BgServingThread._bg_server")
-    uses = [A.call_name(c) for c in A.calls(fb.node) if (A.call_name(c) or "").startswith("self._conn.")]
+    # the connection may be held in a local for the life of the loop (`conn = self._conn`)
+    conn_alias = {t.id for n in A.walk(fb.node) if isinstance(n, ast.Assign) and K.self_attr(n.value, "_conn")
+                  for t in n.targets if isinstance(t, ast.Name)}
+    uses = []
+    for c in A.calls(fb.node):
+        d = A.call_name(c) or ""
+        if d.startswith("self._conn."):
+            uses.append(d)
+        elif "." in d and d.split(".")[0] in conn_alias and d.count(".") == 1:
+            uses.append("self._conn." + d.split(".", 1)[1])
     okb = bool(uses) and all(u in ("self._conn.serve", "self._conn.poll", "self._conn.poll_all") for u in uses)
     chan = [n for n in A.walk(fb.node) if isinstance(n, ast.Attribute) and n.attr in ("_channel", "_recvlock", "_sendlock")]
     rep.ob("R13.7", "BgServingThread._bg_server only goes through serve()", okb and not chan,
